@@ -7,6 +7,22 @@ if TYPE_CHECKING:
 
 
 def update(new: "DataIndex", old: "BaseDataIndex") -> None:
+    dirs = []
+    dirty = set()
     for change in diff(old, new, with_unchanged=True, meta_only=True):
-        if change.typ == UNCHANGED:
+        if change.typ != UNCHANGED:
+            key = change.key
+            dirty.update(key[:idx] for idx in range(len(key)))
+            continue
+
+        if change.new.meta and change.new.meta.isdir:
+            # a directory's own metadata says nothing about the files below
+            # it, its hash may only be carried if nothing below has changed
+            dirs.append(change)
+            continue
+
+        change.new.hash_info = change.old.hash_info
+
+    for change in dirs:
+        if change.key not in dirty:
             change.new.hash_info = change.old.hash_info
